@@ -846,16 +846,14 @@ theorem startChecks_lead (isLeading : Bool) (firstIdx : Nat) (init : List InitTr
   unfold FStream.startChecks at h
   split at h
   · cases h
-  · split at h
-    · cases h
-    · cases hp : pickLeading init with
-      | error e => simp [hp] at h
-      | ok lid =>
-        simp only [hp] at h
-        split at h
-        · cases h
-        · cases h
-          exact ⟨rfl, rfl, rfl, rfl, pickLeading_mem _ _ hp⟩
+  · cases hp : pickLeading init with
+    | error e => simp [hp] at h
+    | ok lid =>
+      simp only [hp] at h
+      split at h
+      · cases h
+      · cases h
+        exact ⟨rfl, rfl, rfl, rfl, pickLeading_mem _ _ hp⟩
 
 /-- a stream accepted by `run` whose (effective) tracks are decodable, with non-zero time scales and distinct ids,
     is well-formed -/
@@ -866,8 +864,10 @@ theorem start_wf (isLeading : Bool) (firstIdx : Nat) (init0 : List InitTrack) (s
   unfold FStream.start at h
   split at h
   · cases h
-  · obtain ⟨e1, e2, _, e4, t, htm, hid⟩ := startChecks_lead _ _ _ _ h
-    exact ⟨⟨ht, hn, ⟨t, by rw [e1]; exact htm, hid⟩⟩, e4, e2⟩
+  · split at h
+    · cases h
+    · obtain ⟨e1, e2, _, e4, t, htm, hid⟩ := startChecks_lead _ _ _ _ h
+      exact ⟨⟨ht, hn, ⟨t, by rw [e1]; exact htm, hid⟩⟩, e4, e2⟩
 
 theorem refSteps_payloads (s : TStream) (dt : Option Int) (t0 : Int) :
     ∀ (xs : List TrueSample) (r : Ref),
